@@ -7,6 +7,7 @@ require (
 	github.com/anishathalye/porcupine v1.3.0
 	github.com/gomodule/redigo v1.8.2
 	github.com/gorilla/websocket v1.4.2
+	golang.org/x/crypto v0.49.0
 )
 
 require (
